@@ -1,0 +1,75 @@
+//! Event sink for trace validation of ucg against its TLA+ specifications.
+//!
+//! Compiled only with the cargo feature `verif`.  Events are JSON objects, one
+//! per specification action; every event carries a per-process sequence number.
+//! They are appended as ndjson to the file named by `UCG_VERIF_TRACE` when that
+//! variable is set (the `ucg` binary) and are otherwise kept in a thread-local
+//! buffer that an embedding harness drains with `take()`.
+use std::cell::RefCell;
+use std::io::Write;
+
+use serde_json::Value as J;
+
+thread_local! {
+    static BUF: RefCell<Vec<J>> = const { RefCell::new(Vec::new()) };
+    static SEQ: RefCell<u64> = const { RefCell::new(0) };
+    static ON: RefCell<Option<bool>> = const { RefCell::new(None) };
+    static FILE: RefCell<Option<std::fs::File>> = const { RefCell::new(None) };
+}
+
+/// Turns event collection into the in-memory buffer on or off.
+pub fn enable(on: bool) {
+    ON.with(|o| *o.borrow_mut() = Some(on));
+}
+
+fn file_sink() -> bool {
+    FILE.with(|f| {
+        if f.borrow().is_some() {
+            return true;
+        }
+        if let Ok(p) = std::env::var("UCG_VERIF_TRACE") {
+            if let Ok(fh) = std::fs::OpenOptions::new().create(true).append(true).open(p) {
+                *f.borrow_mut() = Some(fh);
+                return true;
+            }
+        }
+        false
+    })
+}
+
+/// True when an event emitted now would be recorded anywhere.
+pub fn active() -> bool {
+    let mem = ON.with(|o| o.borrow().unwrap_or(false));
+    mem || file_sink()
+}
+
+/// Records one event.
+pub fn emit(mut ev: J) {
+    if !active() {
+        return;
+    }
+    let seq = SEQ.with(|s| {
+        let mut s = s.borrow_mut();
+        *s += 1;
+        *s
+    });
+    if let J::Object(ref mut m) = ev {
+        m.insert("seq".to_string(), J::from(seq));
+    }
+    let to_file = FILE.with(|f| {
+        if let Some(ref mut fh) = *f.borrow_mut() {
+            let _ = writeln!(fh, "{}", ev);
+            true
+        } else {
+            false
+        }
+    });
+    if !to_file {
+        BUF.with(|b| b.borrow_mut().push(ev));
+    }
+}
+
+/// Drains the in-memory buffer.
+pub fn take() -> Vec<J> {
+    BUF.with(|b| std::mem::take(&mut *b.borrow_mut()))
+}
